@@ -247,7 +247,9 @@ impl FileSystem for FakeFileSystem {
     }
 
     fn glob(&self, pattern: &str) -> Result<Vec<PathBuf>, LoadError> {
-        let pattern = glob::Pattern::new(pattern)?;
+        // stored paths are normalized, so `.` and `..` in the pattern must be resolved first.
+        let pattern = self.canonicalize_path(Path::new(pattern));
+        let pattern = glob::Pattern::new(&pattern.to_string_lossy())?;
         let mut paths: Vec<PathBuf> = self
             .0
             .keys()
